@@ -68,6 +68,48 @@ def one(N, m, bx, env, trials, run=None, probe=False, mode="seq"):
     return msgs, len(run.problem.log), len(cells)
 
 
+def shared_history(task):
+    """One SolverParameters object (density m) serves a loop over problems of different dimensions - as a user who sets
+    the parameters once would write it; every solver must search on the density-m grid of its own box."""
+    from iOpt.solver import Solver
+    from iOpt.solver_parametrs import SolverParameters
+    from mc.common import quiet
+    from mc.env import EnvProblem
+    m, dims, bx, env, trials = task["m"], task["dims"], task["box"], task["env"], task["trials"]
+    params = SolverParameters(eps=0.0, r=2.0, itersLimit=trials, evolventDensity=m)
+    msgs, pts, multi, done = [], 0, 0, 0
+    for i, N in enumerate(dims):
+        lo, up = box(bx, N) if bx in ("B0", "B1", "B3") else box("B1", N)
+        cfg = dict(N=N, lower=lo, upper=up)
+        p = EnvProblem(N, lo, up, make_env(env, cfg))
+        try:
+            with quiet():
+                Solver(p, params).Solve()
+        except BaseException as e:
+            msgs.append(f"N={N} evolventDensity={m} {env}: Solve raised {type(e).__name__}: {e}")
+            break
+        done += 1
+        pts += len(p.log)
+        if N > 5 or N < 2:
+            continue      # the statement is about N = 2..5 (for N = 1 the curve is the identity, no grid)
+        lo_a = np.array(lo, dtype=float)
+        w = np.array(up, dtype=float) - lo_a
+        cells = set()
+        for j, (y, v) in enumerate(p.log):
+            c = (y - lo_a) / w * 2 ** m - 0.5
+            ci = np.rint(c)
+            if np.abs(c - ci).max() > 1e-6 or ci.min() < 0 or ci.max() > 2 ** m - 1:
+                msgs.append(f"N={N} evolventDensity={m} box=[{lo[0]},{up[0]}]^N {env}: trial {j + 1} at {y.tolist()} is not a "
+                            f"cell centre of the 2^{m} grid (history: one SolverParameters object used for problems of "
+                            f"dimensions {dims[:i + 1]}; it now says evolventDensity={params.evolventDensity})")
+                break
+            cells.add(tuple(ci.tolist()))
+        multi += len(cells) > 3
+        if msgs:
+            break
+    return msgs, pts, multi, done
+
+
 def history(task):
     """A history of solver constructions in one process: the densities of task['ms'] in that order for a fixed
     (N, box, objective).  mode 'seq': construct and solve one after the other; mode 'pair': construct each
@@ -105,14 +147,22 @@ def run(ctx):
                 for ms in (up_, down):
                     for mode in ("seq", "pair", "probe") + (("positional", "refine") if bx in ("B1", "D") else ()):
                         tasks.append(dict(N=N, box=bx, env=env, trials=200 if th else 30, ms=ms, mode=mode))
-    out = pmap(history, tasks, chunksize=2)
+    # one SolverParameters object for a loop over problems of several dimensions
+    stasks = []
+    for m in (2, 5, 9, 10, 11, 12):
+        for dims in ([7, 2, 5], [6, 3, 4, 2], [2, 5, 2], [5, 4, 3, 2], [8, 3], [1, 2, 6, 5]):
+            for env in ("lin", "abs13"):
+                stasks.append(dict(m=m, dims=dims, box="B1", env=env, trials=60 if th else 20, shared=True))
+    tasks_h = list(tasks)
+    out = pmap(history, tasks_h, chunksize=2) + pmap(shared_history, stasks, chunksize=2)
+    tasks = tasks_h + stasks
     pts = multi = solves = 0
     for t, (msgs, n, mu, done) in zip(tasks, out):
         pts += n
         multi += mu
         solves += done
         for msg in msgs:
-            res.add_violation(dict(driver="history", **t, message=msg, sig={}))
+            res.add_violation(dict(driver="shared" if t.get("shared") else "history", **t, message=msg, sig={}))
     res.cov = dict(
         evaluations=solves, distinct_nontrivial=multi,
         rule="histories = for every (N in 2..5, box, objective) the densities 2..12 ascending and descending, solved one after "
@@ -128,6 +178,8 @@ def run(ctx):
 
 
 def replay(rec):
+    if rec.get("shared"):
+        return shared_history(rec)[0]
     if "ms" in rec:
         return history(rec)[0]
     return one(rec["N"], rec["m"], rec["box"], rec["env"], rec["trials"])[0]
